@@ -39,7 +39,7 @@ def stores : List (String × String × StoreClass) := [
   ("CloneBase", "clone.Message", .fresh),
   ("CloneBase", "clone.Message", .fresh),
   ("CloneBase", "clone.factoryRef", .fresh),
-  ("CloneBase", "clone.srcError", .fresh),
+  ("CloneBase", "clone.srcErrors", .fresh),
   ("CloneBase", "clone.stack", .fresh),
   ("CloneBase", "clone.Source", .fresh),
   ("CloneBase", "clone.stack", .fresh),
